@@ -8,6 +8,7 @@ import values
 from props import c08
 
 MODULE = "OpcuaModel.Props.C10"
+EXTRA_AUDIT = [("OpcuaModel.Gen.NodeIdTie", "Opcua.Tie.")]
 TRUSTED_BASE = [
     "Lean 4.33.0 kernel; axioms audited (subset of propext, Classical.choice, Quot.sound)",
     "tie (A): UANodeId.json_encode and UANodeId.nodeid_type_value_to_int are also regenerated from the source on every run (translator/py2lean.py) and Gen/NodeIdTie.lean proves the generated definitions equal to nodeIdJson / idTypeInt for every NodeId (jsonEncode_eq, typeInt_eq, gen_nodeId_numeric_valid); coverage.translator_tie says which case applied",
@@ -401,6 +402,45 @@ def extobj_bodies(run):
                 return
 
 
+def extobj_structure_again(run):
+    """an extension object whose body is an EUInformation structure, asked for its JSON after an earlier call on the SAME object with a
+    locale override (and through a Variant): the plain encoding carries the value's own Locale members, as a fresh equal object's does"""
+    import opcua_tools.ua_data_types as U
+    rng = run.rng
+    for j in range(6):
+        dn, ds = 'name %d "q" é' % j, "description %d" % j
+        l1, l2 = rng.choice(["en", "nb-NO", "de"]), rng.choice(["en-US", "fr", "en"])
+        unit, uri = rng.choice([4408652, -1, 5]), "http://www.opcfoundation.org/UA/units/un/cefact"
+
+        def mk():
+            info = U.UAEUInformation(display_name=U.UALocalizedText(text=dn, locale=l1), description=U.UALocalizedText(text=ds, locale=l2),
+                                     unit_id=unit, namespace_uri=uri)
+            eo = U.UAExtensionObject(type_nodeid=U.UANodeId(0, U.NodeIdType.NUMERIC, 888), body=U.UAStructure(value=info))
+            return U.UAVariant(value=eo) if j % 2 else eo
+        promised = {"TypeId": {"Id": 888}, "Body": {"DisplayName": {"Text": dn, "Locale": l1}, "Description": {"Text": ds, "Locale": l2},
+                                                     "UnitId": unit, "NamespaceUri": uri}}
+        if j % 2:
+            promised = {"Type": 22, "Body": promised}
+        case = {"extension_object": {"structure": "EUInformation", "display": [dn, l1], "description": [ds, l2], "unit_id": unit},
+                "in_variant": bool(j % 2), "history": ["json_encode(input_locale='zz-ZZ')", "json_encode()"]}
+        run.case(case, tag="json:ExtensionObject:structure:asked-again")
+        try:
+            clear_caches()
+            import json as _json
+            first = mk().json_encode()
+            strict_loads(first)
+            obj = mk()
+            obj.json_encode(input_locale="zz-ZZ")
+            again = obj.json_encode()
+            strict_loads(again)
+            assert _json.loads(first) == promised, ("fresh object", first)
+            assert _json.loads(again) == promised, ("asked again", again)
+        except Exception as e:  # noqa: BLE001
+            if run.violation(case, {"what": "an extension object holding an EUInformation structure is not encoded with its own content (fresh, or asked again after a call with a locale override)",
+                                    "error": type(e).__name__ + ": " + str(e)[:300], "expected": promised, "call": "UAExtensionObject.json_encode()"}):
+                return
+
+
 def xml_text_exact(run):
     """raw XML element values are JSON strings holding the element's text character for character — including the white
     space around it (the parser keeps the indentation that followed the element in its document)"""
@@ -434,6 +474,9 @@ def explore(run):
     if run.full():
         return
     extobj_bodies(run)
+    if run.full():
+        return
+    extobj_structure_again(run)
     if run.full():
         return
     corpus = [{"t": "String", "v": 'a"b\\c\n\x01é😀'}, {"t": "Int64", "v": 42}, {"t": "UInt64", "v": 2**53}, {"t": "Double", "v": "inf"},
